@@ -12,7 +12,9 @@ import json
 import os
 import random
 import re
+import signal
 import tempfile
+import threading
 from concurrent.futures import ThreadPoolExecutor
 
 from harness import tlc
@@ -229,13 +231,45 @@ def _span(matched, imap):
     return i, i + 1
 
 
+class CallTimeout(Exception):
+    pass
+
+
+class time_limit:
+    """A call of pfst that does not return within `secs` is an observation (exc = CallTimeout), not a hang of the check."""
+
+    def __init__(self, secs):
+        self.secs = secs
+        self.on = threading.current_thread() is threading.main_thread()
+
+    def _raise(self, *a):
+        time_limit.tripped += 1
+        raise CallTimeout(f'no answer within {self.secs} s')
+
+    tripped = 0  # per process: after a few timeouts the remaining calls are not attempted any more (bounded run time)
+
+    def __enter__(self):
+        if time_limit.tripped >= 4:
+            raise CallTimeout('not attempted: calls of this run keep timing out')
+        if self.on:
+            self.old = signal.signal(signal.SIGALRM, self._raise)
+            signal.setitimer(signal.ITIMER_REAL, self.secs)
+
+    def __exit__(self, *a):
+        if self.on:
+            signal.setitimer(signal.ITIMER_REAL, 0)
+            signal.signal(signal.SIGALRM, self.old)
+        return False
+
+
 def observe(fm, cont, pats, word, rng, anon):
     """Run the real matcher; returns the observation record for QuantTrace."""
     tgt, imap, _ = cont.target(word)
     o = {'cont': cont.name, 'anon': bool(anon), 'static': [], 'exc': '', 'acc': False, 'u': 0, 'its': []}
     try:
         pat = build_pattern(fm, cont, pats, rng, anon, o['static'])
-        m = tgt.match(pat) if (isinstance(pat, ast.AST) or (not cont.pure_ast and rng.random() < 0.5)) else pat.match(tgt)
+        with time_limit(30):
+            m = tgt.match(pat) if (isinstance(pat, ast.AST) or (not cont.pure_ast and rng.random() < 0.5)) else pat.match(tgt)
         if m is None:
             return o
         o['acc'] = True
@@ -260,7 +294,7 @@ def observe(fm, cont, pats, word, rng, anon):
                 its.append([qid, s, e])
         o['its'] = its
     except Exception as ex:  # noqa: BLE001 - an exception is an observation, judged by TLC (PfstAccept)
-        o['exc'] = f'{type(ex).__name__}: {ex}'[:200]
+        o['exc'] = ascii(f'{type(ex).__name__}: {ex}')[1:-1][:200].replace('\\', '/').replace('"', "'")
         o['acc'] = False
         o['u'] = 0
         o['its'] = []
